@@ -119,7 +119,7 @@ func (dr *DialogueRunner) Next(choice int) (*DialogueElement, error) {
 		return dr.Next(choice)
 	}
 
-	dr.lastStatement = nextStatement
+	dr.lastStatement = nil
 	switch {
 	case nextStatement.LineStatement != nil:
 		markupResult, err := dr.textElementsToMarkup(nextStatement.LineStatement.Text.Elements)
@@ -158,6 +158,7 @@ func (dr *DialogueRunner) Next(choice int) (*DialogueElement, error) {
 				Disabled: disabled,
 			})
 		}
+		dr.lastStatement = nextStatement
 		return &DialogueElement{
 			Node:    dr.currentNode,
 			Options: options,
